@@ -72,7 +72,18 @@ Merge(k) ==
   /\ LET r == MergeIn(routes, Subs[k]) IN routes' = r.routes /\ panicked' = r.panicked
   /\ ops' = Append(ops, [op |-> "merge", sub |-> k])
 
+(* a router grown from this one - a clone with one more route layer - merged back in: every    *)
+(* route it holds is (under any other layering) a route of the receiver, so unless there are    *)
+(* none the merge is a conflict like any other; it never quietly keeps one of the two versions  *)
+MergeFork(L) ==
+  /\ ~panicked /\ Len(ops) < MaxOps
+  /\ LET fork == [i \in DOMAIN routes |-> [routes[i] EXCEPT !.layers = Append(@, L)]]
+         r == MergeIn(routes, fork)
+     IN routes' = r.routes /\ panicked' = r.panicked
+  /\ ops' = Append(ops, [op |-> "mergefork", id |-> L])
+
 Next == (\E p \in Patterns : Route(p)) \/ (\E L \in {1, 2} : RouteLayer(L)) \/ (\E k \in {1, 2} : Merge(k))
+        \/ MergeFork(3)
 Spec == Init /\ [][Next]_vars
 
 Matches(p, path) == IF p.kind = "exact" THEN p.s = path ELSE StartsWith(path, p.s)
